@@ -187,6 +187,31 @@ def handle (st : DState) (line : String) : DState × String :=
     let view := if msgs == "-" then [] else (msgs.splitOn ";").filterMap parseSMsg
     let ks := parseKeys 64 keys
     (st, showNats ((Search.search view mxs.toNat! mxu.toNat! ks).map (·.uid)))
+  | ["quoted", "parse", bs] =>
+    (st, match Wire.parseQuoted (parseNats bs) with
+      | some (v, rest) => s!"{showNats v} {showNats rest}"
+      | none => "ERR")
+  | ["quoted", "ser", bs] => (st, showNats (Wire.serQuoted (parseNats bs)))
+  | ["build", bin, bs] => (st, showNats (Wire.buildString (bin == "1") (parseNats bs)))
+  | ["literal", bin, bs] => (st, showNats (Wire.serLiteral (bin == "1") (parseNats bs)))
+  | ["wf", bs] => (st, if Grammar.wf (parseNats bs) then "1" else "0")
+  | ["loop", bad, o] =>
+    let oc : Option Loop.Outcome := match o.splitOn ":" with
+      | ["resp", b, t] => some (.resp (b == "1") (t == "1"))
+      | ["rerr", t] => some (.responseError (t == "1"))
+      | ["autherr"] => some .authError
+      | ["timeout"] => some .timeout
+      | ["cancelled"] => some .cancelled
+      | ["connlost"] => some .connLost
+      | ["other"] => some .other
+      | ["writefails"] => some .writeFails
+      | _ => none
+    match oc with
+    | none => (st, "bad-op")
+    | some oc =>
+      let r := Loop.handle ⟨bad.toNat!⟩ oc
+      (st, ",".intercalate (r.1.map (fun w => match w with | .tagged => "tagged" | .bye => "bye" | .byeServerBug => "serverbug")) ++
+        " " ++ (if r.2.1 then "continue" else "close") ++ " " ++ toString r.2.2.bad)
   | ["layout", kind, name] =>
     -- name: code points; delimiter '/'; prints REJECT or the lexically resolved path below the user directory
     let parts := Layout.splitOn Layout.slash (parseNats name)
